@@ -20,7 +20,8 @@ RULE = ("(A) goal lists for _gp_validate_goals: a mostly-valid stream plus a mal
         "with NaN / inf entries; accept/reject compared with GoalValidate.validate; (B) real multi-priority "
         "solves: every target goal, member and step with a finite target lies in the envelope of the reported "
         "eps in [0,1]; critical goals are met in every solution from their priority on or optimize() fails. "
-        "non-trivial = a rejected list, or a run with a NaN-gap / critical goal; distinct = abstracted shapes")
+        "non-trivial = a rejected list, or a run with a NaN-gap / critical goal; distinct = abstracted shapes"
+        ' Also: violation variables checked in every later solution that still contains them (violation-shift cases), two critical goals on one quantity in either order, three-goal monotonicity chains.')
 MODELLED = ("goal_programming_mixin_base.py _gp_validate_goals (604-772), soft constraint rows (915-962), "
             "critical goals in _gp_goal_hard_constraint / _gp_update_constraint_store")
 NOT_MODELLED = "vector goals (size > 1); exception messages; the solver (runs are sampled, tolerance 1e-6)"
